@@ -1059,6 +1059,300 @@ theorem grid_active_exactly_one (g : Grid α) (i : Nat) (h : i < g.vols.length) 
 example : (Grid.mk' [(1 : ℚ), 2, 3] none).step (.active 7) = Grid.mk' [(1 : ℚ), 2, 3] none :=
   grid_rejected_op_unchanged _ 7 (by simp [Grid.mk'])
 
+/-! ## 8. round 6: the constructor's validation ladder on raw rows (guard order, acceptance, order independence of the
+constructor's outcome); the collection-level sampling entry point `emissivities_from_function` -/
+
+/-- the encoding of a well-formed vertex as a raw row -/
+def rowOf (p : α × α) : List α := [p.1, p.2]
+
+/-- a row that passes both per-vertex checks of `__init__`'s loop -/
+def GoodRow (r : List α) : Prop := ∃ x y, r = [x, y] ∧ ¬ x < 0
+
+theorem rowLadder_wellformed (l : List (α × α)) :
+    rowLadder (l.map rowOf) = if l.any (fun v => decide (v.1 < 0)) then .error "ValueError" else .ok l := by
+  induction l with
+  | nil => simp [rowLadder]
+  | cons p ps ih =>
+    simp only [List.map_cons, rowOf, rowLadder, List.any_cons]
+    rw [ih]
+    by_cases h : p.1 < 0
+    · simp [h]
+    · by_cases h2 : (ps.any fun v => decide (v.1 < 0)) = true
+      · simp [h, h2]
+      · simp only [Bool.not_eq_true] at h2
+        simp [h, h2]
+
+/-- two entry points agree: the constructor on raw rows that happen to be well-formed pairs is the constructor on
+the vertex list (`geom`/`norm` streams and all theorems about `mkVoxel` apply to the raw-row form) -/
+theorem mkVoxelRows_agrees (l : List (α × α)) : mkVoxelRows (l.map rowOf) = mkVoxel l := by
+  unfold mkVoxelRows mkVoxel
+  rw [rowLadder_wellformed, List.length_map]
+  by_cases h1 : l.length < 3
+  · simp [h1]
+  · by_cases h2 : (l.any fun v => decide (v.1 < 0)) = true
+    · simp [h1, h2]
+    · simp only [Bool.not_eq_true] at h2
+      simp [h1, h2]
+
+/-- guard order: the exception is decided by the FIRST offending row — `TypeError` if it has not exactly two entries,
+`ValueError` if it has two and the first is negative — whatever follows it (a later malformed row never masks an
+earlier negative radius and vice versa) -/
+theorem rowLadder_first_offender (pre : List (List α)) (bad : List α) (post : List (List α))
+    (hpre : ∀ r ∈ pre, GoodRow r) (hbad : ¬ GoodRow bad) :
+    rowLadder (pre ++ bad :: post) = .error (if bad.length = 2 then "ValueError" else "TypeError") := by
+  induction pre with
+  | nil =>
+    simp only [List.nil_append]
+    match bad, hbad with
+    | [], _ => simp [rowLadder]
+    | [_], _ => simp [rowLadder]
+    | [x, y], hb =>
+      have hx : x < 0 := by
+        by_contra hx; exact hb ⟨x, y, rfl, hx⟩
+      simp [rowLadder, hx]
+    | _ :: _ :: _ :: _, _ => simp [rowLadder]
+  | cons r rs ih =>
+    obtain ⟨x, y, rfl, hx⟩ := hpre r (by simp)
+    have := ih (fun r hr => hpre r (by simp [hr]))
+    simp only [List.cons_append, rowLadder, hx, if_false, this]
+
+/-- acceptance, exactly: the ladder returns a vertex list iff every row is a pair with non-negative first entry, and
+then it returns those pairs in order -/
+theorem rowLadder_ok_iff (rows : List (List α)) (l : List (α × α)) :
+    rowLadder rows = .ok l ↔ rows = l.map rowOf ∧ ∀ v ∈ l, ¬ v.1 < 0 := by
+  constructor
+  · intro h
+    by_cases hg : ∀ r ∈ rows, GoodRow r
+    · -- all rows good: rows = map rowOf of some list
+      have key : ∀ rows : List (List α), (∀ r ∈ rows, GoodRow r) →
+          ∃ l' : List (α × α), rows = l'.map rowOf ∧ ∀ v ∈ l', ¬ v.1 < 0 := by
+        intro rows
+        induction rows with
+        | nil => intro _; exact ⟨[], rfl, by simp⟩
+        | cons r rs ih =>
+          intro hg
+          obtain ⟨x, y, rfl, hx⟩ := hg r (by simp)
+          obtain ⟨l', e, hl'⟩ := ih (fun r hr => hg r (by simp [hr]))
+          refine ⟨(x, y) :: l', by simp [rowOf, e], ?_⟩
+          intro v hv
+          rcases List.mem_cons.mp hv with rfl | hv
+          · exact hx
+          · exact hl' v hv
+      obtain ⟨l', e, hl'⟩ := key rows hg
+      have hany : (l'.any fun v => decide (v.1 < 0)) = false := by
+        rw [List.any_eq_false]; intro v hv; simpa using hl' v hv
+      rw [e, rowLadder_wellformed, hany] at h
+      simp only [Bool.false_eq_true, if_false, Except.ok.injEq] at h
+      subst h
+      exact ⟨e, hl'⟩
+    · exfalso
+      -- split at the first offending row
+      have key : ∀ rows : List (List α), (¬ ∀ r ∈ rows, GoodRow r) →
+          ∃ pre bad post, rows = pre ++ bad :: post ∧ (∀ r ∈ pre, GoodRow r) ∧ ¬ GoodRow bad := by
+        intro rows
+        induction rows with
+        | nil => intro h; exact absurd (by simp) h
+        | cons r rs ih =>
+          intro h
+          by_cases hr : GoodRow r
+          · have : ¬ ∀ r ∈ rs, GoodRow r := by
+              intro hall; apply h; intro r' hr'
+              rcases List.mem_cons.mp hr' with rfl | hr'
+              · exact hr
+              · exact hall r' hr'
+            obtain ⟨pre, bad, post, e, hp, hb⟩ := ih this
+            refine ⟨r :: pre, bad, post, by simp [e], ?_, hb⟩
+            intro r' hr'
+            rcases List.mem_cons.mp hr' with rfl | hr'
+            · exact hr
+            · exact hp r' hr'
+          · exact ⟨[], r, rs, rfl, by simp, hr⟩
+      obtain ⟨pre, bad, post, e, hp, hb⟩ := key rows hg
+      rw [e, rowLadder_first_offender pre bad post hp hb] at h
+      cases h
+  · rintro ⟨e, hl⟩
+    have hany : (l.any fun v => decide (v.1 < 0)) = false := by
+      rw [List.any_eq_false]; intro v hv; simpa using hl v hv
+    rw [e, rowLadder_wellformed, hany]; simp
+
+/-- the constructor accepts exactly the lists of ≥ 3 vertices with no negative radius, and stores `normalise l` -/
+theorem mkVoxel_ok_iff (l s : List (α × α)) :
+    mkVoxel l = .ok s ↔ 3 ≤ l.length ∧ (∀ v ∈ l, ¬ v.1 < 0) ∧ s = normalise l := by
+  unfold mkVoxel
+  by_cases h1 : l.length < 3
+  · simp [h1]
+  · by_cases h2 : (l.any fun v => decide (v.1 < 0)) = true
+    · simp only [h1, h2, if_false, if_true]
+      constructor
+      · intro h; cases h
+      · rintro ⟨_, hl, _⟩
+        obtain ⟨v, hv, hd⟩ := List.any_eq_true.mp h2
+        exact absurd (by simpa using hd) (hl v hv)
+    · simp only [Bool.not_eq_true] at h2
+      simp only [h1, h2, if_false, Bool.false_eq_true, Except.ok.injEq]
+      constructor
+      · intro h
+        refine ⟨by omega, ?_, h.symm⟩
+        intro v hv
+        have := List.any_eq_false.mp h2 v hv
+        simpa using this
+      · rintro ⟨_, _, h⟩; exact h.symm
+
+/-- … and so does the raw-row constructor (all rows pairs), with the TypeError/ValueError ladder otherwise -/
+theorem mkVoxelRows_ok_iff (rows : List (List α)) (s : List (α × α)) :
+    mkVoxelRows rows = .ok s ↔
+      3 ≤ rows.length ∧ ∃ l : List (α × α), rows = l.map rowOf ∧ (∀ v ∈ l, ¬ v.1 < 0) ∧ s = normalise l := by
+  unfold mkVoxelRows
+  by_cases h1 : rows.length < 3
+  · simp [h1]
+  · simp only [h1, if_false]
+    constructor
+    · intro h
+      split at h
+      · cases h
+      · rename_i l hl
+        simp only [Except.ok.injEq] at h
+        obtain ⟨e, hv⟩ := (rowLadder_ok_iff rows l).mp hl
+        exact ⟨by omega, l, e, hv, h.symm⟩
+    · rintro ⟨_, l, e, hv, hs⟩
+      rw [(rowLadder_ok_iff rows l).mpr ⟨e, hv⟩, hs]
+
+/-- what the constructor stores is a clockwise listing of the same vertices -/
+theorem mkVoxel_stored (l s : List (α × α)) (h : mkVoxel l = .ok s) :
+    shoelace2 s ≤ 0 ∧ s.Perm l ∧ s.length = l.length := by
+  obtain ⟨_, _, rfl⟩ := (mkVoxel_ok_iff l s).mp h
+  refine ⟨normalise_clockwise l, ?_, ?_⟩
+  · unfold normalise; split_ifs
+    · exact List.Perm.refl _
+    · exact List.reverse_perm l
+  · unfold normalise; split_ifs <;> simp
+
+/-- what the `geom` observation reads off a constructed voxel -/
+def geomOf (pi : α) (s : List (α × α)) : α × Option (α × α) × α := (area s, centroid s, volume pi s)
+
+/-- the whole constructor outcome — which exception, or the reported area/centroid/volume of the stored list — is the
+same for every cyclic rotation of the vertex list … -/
+theorem ctor_geom_rotate (pi : α) (l : List (α × α)) (n : Nat) :
+    (mkVoxel (l.rotate n)).map (geomOf pi) = (mkVoxel l).map (geomOf pi) := by
+  have hany : ((l.rotate n).any fun v => decide (v.1 < 0)) = l.any fun v => decide (v.1 < 0) :=
+    (List.rotate_perm l n).any_eq
+  unfold mkVoxel
+  rw [List.length_rotate, hany]
+  by_cases h1 : l.length < 3
+  · simp [h1]
+  · by_cases h2 : (l.any fun v => decide (v.1 < 0)) = true
+    · simp [h1, h2]
+    · simp only [Bool.not_eq_true] at h2
+      simp only [h1, h2, if_false, Bool.false_eq_true, Except.map]
+      obtain ⟨a1, a2, a3⟩ := normalise_invariant pi (l.rotate n)
+      obtain ⟨b1, b2, b3⟩ := normalise_invariant pi l
+      simp only [geomOf, a1, a2, a3, b1, b2, b3, area_rotate, centroid_rotate, volume_rotate]
+
+/-- … and for the reversed list (either orientation) -/
+theorem ctor_geom_reverse (pi : α) (l : List (α × α)) :
+    (mkVoxel l.reverse).map (geomOf pi) = (mkVoxel l).map (geomOf pi) := by
+  unfold mkVoxel
+  rw [List.length_reverse, List.any_reverse]
+  by_cases h1 : l.length < 3
+  · simp [h1]
+  · by_cases h2 : (l.any fun v => decide (v.1 < 0)) = true
+    · simp [h1, h2]
+    · simp only [Bool.not_eq_true] at h2
+      simp only [h1, h2, if_false, Bool.false_eq_true, Except.map]
+      obtain ⟨a1, a2, a3⟩ := normalise_invariant pi l.reverse
+      obtain ⟨b1, b2, b3⟩ := normalise_invariant pi l
+      simp only [geomOf, a1, a2, a3, b1, b2, b3, area_reverse, centroid_reverse, volume_reverse]
+
+example : rowLadder ([[(1 : ℚ), 0], [2, 0]] ++ [-1] :: [[2, 1]]) = .error "TypeError" := by
+  have h := rowLadder_first_offender [[(1 : ℚ), 0], [2, 0]] [-1] [[2, 1]]
+    (by intro r hr; simp at hr; rcases hr with rfl | rfl; exacts [⟨1, 0, rfl, by norm_num⟩, ⟨2, 0, rfl, by norm_num⟩])
+    (by rintro ⟨x, y, h, _⟩; simp at h)
+  simpa using h
+
+example : (mkVoxel [((1 : ℚ), 0), (2, 0), (2, 1)]).map (geomOf 3) = (mkVoxel [((2 : ℚ), 1), (2, 0), (1, 0)]).map (geomOf 3) :=
+  (ctor_geom_reverse 3 [((1 : ℚ), 0), (2, 0), (2, 1)]).symm
+
+/-! ### `VoxelCollection.emissivities_from_function` -/
+
+theorem emissivity_zero_samples (sqrt : α → α) (f : α → α → α) (verts : List (α × α))
+    (tris : List (Nat × Nat × Nat)) (us : List α) :
+    emissivity sqrt f verts tris 0 us = .error "ZeroDivisionError" := by
+  simp [emissivity, drawN]
+
+/-- one result per voxel -/
+theorem emissivities_length (sqrt : α → α) (f : α → α → α) (vs : List (List (α × α) × List (Nat × Nat × Nat)))
+    (n : Nat) : ∀ (us : List α) (r : List α), emissivities sqrt f vs n us = .ok r → r.length = vs.length := by
+  induction vs with
+  | nil => intro us r h; simp [emissivities] at h; subst h; rfl
+  | cons vt vs ih =>
+    intro us r h
+    unfold emissivities at h
+    split at h
+    · cases h
+    · split at h
+      · cases h
+      · rename_i r' hr
+        simp only [Except.ok.injEq] at h
+        subst h
+        simp [ih _ _ hr]
+
+/-- two entry points agree: entry `i` of the collection call is `emissivity_from_function` of voxel `i` run on the
+shared uniform stream advanced by what voxels `0 … i-1` consumed (3 uniforms per sample, 2 for a one-triangle voxel) -/
+theorem emissivities_entry (sqrt : α → α) (f : α → α → α) (vs : List (List (α × α) × List (Nat × Nat × Nat)))
+    (n : Nat) : ∀ (us : List α) (r : List α), emissivities sqrt f vs n us = .ok r →
+    ∀ i (hi : i < vs.length), ∃ ss,
+      emissivity sqrt f vs[i].1 vs[i].2 n (us.drop ((vs.take i).map fun vt => consumed vt.2 n).sum)
+        = .ok (r.getD i 0, ss) := by
+  induction vs with
+  | nil => intro us r _ i hi; simp at hi
+  | cons vt vs ih =>
+    intro us r h i hi
+    unfold emissivities at h
+    split at h
+    · cases h
+    · rename_i er he
+      split at h
+      · cases h
+      · rename_i r' hr
+        simp only [Except.ok.injEq] at h
+        subst h
+        cases i with
+        | zero => exact ⟨er.2, by simpa using he⟩
+        | succ j =>
+          obtain ⟨ss, hss⟩ := ih _ _ hr j (by simpa using hi)
+          refine ⟨ss, ?_⟩
+          simpa [List.drop_drop, add_comm] using hss
+
+/-- exact for constants at the collection level: every entry is the constant, whatever the stream -/
+theorem emissivities_const (sqrt : α → α) (c : α) (vs : List (List (α × α) × List (Nat × Nat × Nat)))
+    (n : Nat) : ∀ (us : List α) (r : List α), emissivities sqrt (fun _ _ => c) vs n us = .ok r → ∀ x ∈ r, x = c := by
+  induction vs with
+  | nil => intro us r h; simp [emissivities] at h; subst h; simp
+  | cons vt vs ih =>
+    intro us r h
+    unfold emissivities at h
+    split at h
+    · cases h
+    · rename_i er he
+      split at h
+      · cases h
+      · rename_i r' hr
+        simp only [Except.ok.injEq] at h
+        subst h
+        intro x hx
+        rcases List.mem_cons.mp hx with rfl | hx
+        · exact (emissivity_is_sample_mean sqrt _ vt.1 vt.2 n us er.1 er.2 he).2.2.2.2 c rfl
+        · exact ih _ _ hr x hx
+
+/-- `grid_samples = 0` on a non-empty collection raises ZeroDivisionError (first voxel); the empty collection returns
+the empty array for every `grid_samples` -/
+theorem emissivities_zero_samples (sqrt : α → α) (f : α → α → α) (vt : List (α × α) × List (Nat × Nat × Nat))
+    (vs : List (List (α × α) × List (Nat × Nat × Nat))) (us : List α) :
+    emissivities sqrt f (vt :: vs) 0 us = .error "ZeroDivisionError" ∧ ∀ n, emissivities sqrt f [] n us = .ok [] := by
+  constructor
+  · unfold emissivities; rw [emissivity_zero_samples]
+  · intro n; simp [emissivities]
+
 /-! ## non-vacuity and the float-gap witness (over ℚ) -/
 
 /-- an L-shaped hexagon: area 3, same for every rotation and for the reversed listing -/
